@@ -448,7 +448,8 @@ func (r *Runtime) arrayproto_splice(call FunctionCall) Value {
 	}
 	a := arraySpeciesCreate(o, actualDeleteCount)
 	// growing needs a writable length and an extensible array: leave the failure to the generic path
-	if src := r.checkStdArrayObj(o); src != nil && (newLength <= length || src.lengthProp.writable && src.extensible) {
+	// and the new elements are created with [[Set]], which an index property of a prototype would intercept
+	if src := r.checkStdArrayObj(o); src != nil && (newLength <= length || src.lengthProp.writable && src.extensible && r.stdArrayProtoHasNoIdxProps(src)) {
 		if dst := r.checkStdArrayObjWithProto(a); dst != nil {
 			values := make([]Value, actualDeleteCount)
 			copy(values, src.values[actualStart:])
@@ -1453,6 +1454,22 @@ func (r *Runtime) checkStdArrayObjWithProto(obj *Object) *arrayObject {
 		}
 	}
 	return nil
+}
+
+// stdArrayProtoHasNoIdxProps reports whether the array has the initial prototype chain (the templated Array.prototype
+// and Object.prototype) and neither prototype has an integer-indexed property.
+func (r *Runtime) stdArrayProtoHasNoIdxProps(arr *arrayObject) bool {
+	if arr.prototype == nil {
+		return false
+	}
+	if p1, ok := arr.prototype.self.(*templatedArrayObject); ok && p1.hasNoIdxProps() {
+		if p := p1.proto(); p != nil {
+			if p2, ok := p.self.(*templatedObject); ok && p2.proto() == nil {
+				return p2.hasNoIdxProps()
+			}
+		}
+	}
+	return false
 }
 
 func (r *Runtime) checkStdArray(v Value) *arrayObject {
